@@ -540,3 +540,67 @@ def run(ctx):  # noqa: F811
     _run_c11d(ctx)
     r11_6(ctx, ctx.model)
     r11_7(ctx, ctx.model)
+
+
+def r11_8(ctx, m):
+    from .c03 import r03_6
+    # the metric of an energy survives the addition of constants (shared with C03)
+    try:
+        r03_6(ctx, rid="R11.8")
+    except TypeError:
+        pass
+    ctx.rule("R11.9", "VariableCovarianceGaussianEnergy: the full Fisher metric is assembled as a mapping from KEY to block - residual key "
+                      "-> inverse covariance, inverse-covariance key -> fct / icov^2 - so that it does not depend on how the two key "
+                      "names sort; a positional MultiField(domain, (a, b)) silently assumes one order", floor=1)
+    V = m.cls(EO, "VariableCovarianceGaussianEnergy")
+    ap = V.methods["apply"]
+    ctx.saw_func(ap)
+    key = f"{ap.key}::metric blocks are labelled by their keys"
+    pos_mf = [c for c in walk_no_nested(ap.node) if isinstance(c, ast.Call) and src(c.func) == "MultiField" and len(c.args) >= 2 and isinstance(c.args[1], (ast.Tuple, ast.List))
+              and len(c.args[1].elts) > 1]
+    dicts = [d for d in walk_no_nested(ap.node) if isinstance(d, ast.Dict) and {src(k) for k in d.keys if k is not None} == {"self._kr", "self._ki"}]
+    if pos_mf:
+        ctx.bad("R11.9", key, f"`{short(pos_mf[0], 70)}`: blocks are assigned by position (sorted key order), not by key: for a residual key that sorts before the "
+                              "inverse-covariance key the two blocks are swapped", ap, pos_mf[0])
+    elif len(dicts) == 1:
+        d = dicts[0]
+        mp = {src(k): src(v).replace(" ", "") for k, v in zip(d.keys, d.values)}
+        locs = {src(st.targets[0].elts[j]): src(st.value.elts[j]) for st in walk_no_nested(ap.node) if isinstance(st, ast.Assign) and isinstance(st.targets[0], ast.Tuple)
+                and isinstance(st.value, ast.Tuple) and len(st.targets[0].elts) == len(st.value.elts) for j in range(len(st.value.elts))}
+        ivar = [n_ for n_, v_ in locs.items() if "self._ki" in v_]
+        okm = len(ivar) == 1 and mp["self._kr"] == f"{ivar[0]}.val" and mp["self._ki"].replace("(", "").replace(")", "") in (f"fct*{ivar[0]}.val**-2", f"fct/{ivar[0]}.val**2")
+        ctx.check("R11.9", key, True if okm else None, str(mp), ap, d)
+    else:
+        ctx.und("R11.9", key, "metric assembly not recognised", ap)
+    ctx.rule("R11.10", "SandwichOperator.get_sqrt (the transformation of every Gaussian energy with a sandwich covariance): the square root "
+                       "is cheese.get_sqrt() @ bun; the bun alone is returned only when there is no cheese at all (`self._cheese is None`) - "
+                       "never for a cheese that merely is a ScalingOperator, whose factor would be dropped", floor=2)
+    S = m.cls("nifty.cl.operators.sandwich_operator", "SandwichOperator")
+    gs = S.methods.get("get_sqrt")
+    if gs is None:
+        ctx.und("R11.10", f"{S.key}::get_sqrt", "missing", S)
+        return
+    ctx.saw_func(gs)
+    cfg = cfg_of(gs)
+    for n in cfg.nodes:
+        if n.kind != "stmt" or not isinstance(n.ast, ast.Return) or n.ast.value is None:
+            continue
+        t = src(n.ast.value).replace(" ", "")
+        atoms = known_atoms(cfg, n.id)
+        key = f"{gs.key}::`{short(n.ast, 50)}`"
+        if t == "self._bun":
+            none_guard = any(src(a).replace(" ", "") == "self._cheeseisNone" and pol for a, pol in atoms)
+            other = [src(a) for a, pol in atoms if pol and "cheese" in src(a) and src(a).replace(" ", "") != "self._cheeseisNone"]
+            ctx.check("R11.10", key, none_guard and not other, f"returned under {[('' if p else 'not ') + src(a) for a, p in atoms]}: the cheese's factor is dropped" if not none_guard or other else None, gs, n.ast)
+        elif t in ("self._cheese.get_sqrt()@self._bun", "self._cheese.get_sqrt()(self._bun)"):
+            ctx.ok("R11.10", key, None, gs, n.ast)
+        else:
+            ctx.und("R11.10", key, "return form not recognised", gs, n.ast)
+
+
+_run_c11e = run
+
+
+def run(ctx):  # noqa: F811
+    _run_c11e(ctx)
+    r11_8(ctx, ctx.model)
